@@ -10,6 +10,8 @@ Lemma ks_skeleton_pinned :
   /\ ks_fs_rewind_target = "Start(0)"%string
   /\ ks_fs_occupied_remove = ["fs::unlinkat"; "AtFlags::empty"; "self.get"]%string
   /\ ks_fs_vacant_insert = ["self.fd.fstat"; "cbor::into_writer"; "self.fd.fsync"]%string
+  /\ ks_fs_vacant_insert_steps = ["cbor::into_writer"; "self.fd.fsync"; "self.dirty=true"]%string
+  /\ ks_fs_vacant_insert_propagates = ["cbor::into_writer(&key,&self.fd)?"; "self.fd.fsync()?"]%string
   /\ ks_fs_vacant_drop = ["fs::unlinkat"; "AtFlags::empty"]%string
   /\ ks_fs_vacant_drop_guard = "!self.dirty"%string
   /\ ks_fs_entry = ["self.alias"; "Exclusive::openat"; "Entry::Occupied"; "OccupiedEntry::new"; "self.root.as_fd"; "err.into";
@@ -29,6 +31,8 @@ Lemma ks_skeleton_pinned :
 Proof. repeat split; reflexivity. Qed.
 
 Lemma rewinds_true : rewinds = true.
+Proof. reflexivity. Qed.
+Lemma dirty_first_false : dirty_first = false.
 Proof. reflexivity. Qed.
 
 Section Proofs.
@@ -91,7 +95,7 @@ Section Proofs.
 
   Lemma fs_entry_refines s m i v a :
     R (files s) m ->
-    let '(s', ob) := fs_entry key enc dec true s i v a in
+    let '(s', ob) := fs_entry key enc dec true false s i v a in
     let '(m', ob') := spec_step key m (OEntry key i v a) in
     ob = ob' /\ R (files s') m' /\ canary s' = canary s.
   Proof.
@@ -101,20 +105,21 @@ Section Proofs.
       destruct (then_remove a).
       + rewrite fd_get_rewind. cbn [files canary]. repeat split; auto. now apply R_supd_none.
       + repeat split; auto.
-    - destruct v as [k|]; cbn [files canary]; repeat split; auto.
+    - destruct v as [k| |p]; cbn [files canary]; repeat split; auto.
       + now apply R_create_create.
+      + now apply R_create_unlink.
       + now apply R_create_unlink.
   Qed.
 
   Lemma fs_step_refines debug s m o :
     R (files s) m -> (debug = true -> canary s = true) ->
-    let '(s', ob) := fs_step key enc dec true debug s o in
+    let '(s', ob) := fs_step key enc dec true false debug s o in
     let '(m', ob') := spec_step key m o in
     ob = ob' /\ R (files s') m' /\ (debug = true -> canary s' = true).
   Proof.
-    intros HR Hc. destruct o as [i v a|i|i k|i|].
+    intros HR Hc. destruct o as [i v a|i|i k|i p|i|].
     - cbn [fs_step]. pose proof (fs_entry_refines s m i v a HR) as H.
-      destruct (fs_entry key enc dec true s i v a) as [s' ob].
+      destruct (fs_entry key enc dec true false s i v a) as [s' ob].
       destruct (spec_step key m (OEntry key i v a)) as [m' ob'].
       destruct H as (? & ? & Hcan). repeat split; auto. intros; rewrite Hcan; auto.
     - cbn [fs_step spec_step]. unfold fs_get. rewrite (HR i).
@@ -123,12 +128,17 @@ Section Proofs.
       + destruct debug; cbn [andb]; auto. rewrite Hc by auto. cbn. auto.
     - cbn [fs_step].
       pose proof (fs_entry_refines s m i (VInsert key k) {| gets := 0; then_remove := false |} HR) as H.
-      destruct (fs_entry key enc dec true s i (VInsert key k) _) as [s' ob].
+      destruct (fs_entry key enc dec true false s i (VInsert key k) _) as [s' ob].
+      cbn [spec_step gets then_remove repeat] in *.
+      destruct (m i) as [k0|]; destruct H as (-> & ? & Hcan); repeat split; auto; intros; rewrite Hcan; auto.
+    - cbn [fs_step].
+      pose proof (fs_entry_refines s m i (VInsertFail key p) {| gets := 0; then_remove := false |} HR) as H.
+      destruct (fs_entry key enc dec true false s i (VInsertFail key p) _) as [s' ob].
       cbn [spec_step gets then_remove repeat] in *.
       destruct (m i) as [k0|]; destruct H as (-> & ? & Hcan); repeat split; auto; intros; rewrite Hcan; auto.
     - cbn [fs_step].
       pose proof (fs_entry_refines s m i (VDrop key) {| gets := 0; then_remove := true |} HR) as H.
-      destruct (fs_entry key enc dec true s i (VDrop key) _) as [s' ob].
+      destruct (fs_entry key enc dec true false s i (VDrop key) _) as [s' ob].
       cbn [spec_step gets then_remove repeat] in *.
       destruct (m i) as [k0|] eqn:Hm; destruct H as (-> & HR' & Hcan).
       + repeat split; auto. intros; rewrite Hcan; auto.
@@ -142,16 +152,16 @@ Section Proofs.
 
   Lemma fs_run_refines debug ops : forall s m,
     R (files s) m -> (debug = true -> canary s = true) ->
-    snd (fs_run key enc dec true debug s ops) = snd (spec_run key m ops)
-    /\ R (files (fst (fs_run key enc dec true debug s ops))) (fst (spec_run key m ops)).
+    snd (fs_run key enc dec true false debug s ops) = snd (spec_run key m ops)
+    /\ R (files (fst (fs_run key enc dec true false debug s ops))) (fst (spec_run key m ops)).
   Proof.
     induction ops as [|o r IH]; intros s m HR Hc; cbn [fs_run spec_run]; [auto|].
     pose proof (fs_step_refines debug s m o HR Hc) as H.
-    destruct (fs_step key enc dec true debug s o) as [s1 ob].
+    destruct (fs_step key enc dec true false debug s o) as [s1 ob].
     destruct (spec_step key m o) as [m1 ob'].
     destruct H as (-> & HR1 & Hc1).
     specialize (IH s1 m1 HR1 Hc1).
-    destruct (fs_run key enc dec true debug s1 r) as [s2 obs].
+    destruct (fs_run key enc dec true false debug s1 r) as [s2 obs].
     destruct (spec_run key m1 r) as [m2 obs']. cbn [fst snd] in *.
     destruct IH as [-> ?]. auto.
   Qed.
@@ -166,7 +176,7 @@ Section Proofs.
     intros HR. unfold mem_entry. cbn [spec_step]. rewrite (HR i).
     destruct (m i) as [k|] eqn:Hm; cbn [option_map].
     - unfold mem_read. rewrite dec_enc. destruct (then_remove a); split; auto. now apply R_supd_none.
-    - destruct v as [k|]; split; auto. now apply R_supd_some.
+    - destruct v as [k| |p]; split; auto. now apply R_supd_some.
   Qed.
 
   Lemma mem_step_refines s m o :
@@ -175,12 +185,17 @@ Section Proofs.
     let '(m', ob') := spec_step key m o in
     ob = ob' /\ R s' m'.
   Proof.
-    intros HR. destruct o as [i v a|i|i k|i|].
+    intros HR. destruct o as [i v a|i|i k|i p|i|].
     - apply mem_entry_refines; auto.
     - cbn [mem_step spec_step]. rewrite (HR i). destruct (m i); cbn [option_map]; [rewrite dec_enc|]; auto.
     - cbn [mem_step].
       pose proof (mem_entry_refines s m i (VInsert key k) {| gets := 0; then_remove := false |} HR) as H.
       destruct (mem_entry key enc dec s i (VInsert key k) _) as [s' ob].
+      cbn [spec_step gets then_remove repeat] in *.
+      destruct (m i); destruct H as (-> & ?); auto.
+    - cbn [mem_step].
+      pose proof (mem_entry_refines s m i (VInsertFail key p) {| gets := 0; then_remove := false |} HR) as H.
+      destruct (mem_entry key enc dec s i (VInsertFail key p) _) as [s' ob].
       cbn [spec_step gets then_remove repeat] in *.
       destruct (m i); destruct H as (-> & ?); auto.
     - cbn [mem_step].
@@ -219,24 +234,26 @@ End Proofs.
     observations of a plain map, and end with exactly the encodings of the
     map's keys on disk / in memory: an id is present iff it was inserted
     through a vacant entry and not removed since; a dropped vacant entry leaves
-    nothing; reopening preserves the contents. *)
+    nothing; an insert that fails part-way (serialisation or write error after
+    any number of bytes) is a no-op on the map and leaves no directory entry;
+    reopening preserves the contents. *)
 Definition keystore_refines_map_stmt : Prop :=
   forall (key : Type) (enc : key -> bytes) (dec : bytes -> option key),
     (forall k, dec (enc k) = Some k) ->
     forall (debug : bool) (ops : list (op key)),
       let '(m, want) := spec_run key (fun _ => None) ops in
-      (let '(s, got) := fs_run key enc dec rewinds debug (fs_init debug) ops in
+      (let '(s, got) := fs_run key enc dec rewinds dirty_first debug (fs_init debug) ops in
        got = want /\ (forall i, lookup (files s) i = option_map enc (m i)))
       /\ (let '(s, got) := mem_run key enc dec [] ops in
           got = want /\ (forall i, lookup s i = option_map enc (m i))).
 Lemma keystore_refines_map_proof : keystore_refines_map_stmt.
 Proof.
-  intros key enc dec Hde debug ops. rewrite rewinds_true.
+  intros key enc dec Hde debug ops. rewrite rewinds_true, dirty_first_false.
   assert (HR0 : R key enc [] (fun _ => None)) by (intros i; reflexivity).
   pose proof (fs_run_refines key enc dec Hde debug ops (fs_init debug) (fun _ => None) HR0 (fun H => H)) as Hf.
   pose proof (mem_run_refines key enc dec Hde ops [] (fun _ => None) HR0) as Hm.
   destruct (spec_run key (fun _ => None) ops) as [m want].
-  destruct (fs_run key enc dec true debug (fs_init debug) ops) as [s got].
+  destruct (fs_run key enc dec true false debug (fs_init debug) ops) as [s got].
   destruct (mem_run key enc dec [] ops) as [s' got']. cbn [fst snd] in *.
   destruct Hf, Hm. repeat split; auto.
 Qed.
@@ -248,9 +265,9 @@ Definition keystore_orig_refuted_stmt : Prop :=
   forall (key : Type) (enc : key -> bytes) (dec : bytes -> option key) (k : key),
     (forall k, dec (enc k) = Some k) -> dec [] = None ->
     exists ops,
-      snd (fs_run key enc dec false true (fs_init true) ops) <> snd (spec_run key (fun _ => None) ops)
+      snd (fs_run key enc dec false false true (fs_init true) ops) <> snd (spec_run key (fun _ => None) ops)
       /\ exists ops',
-        snd (fs_run key enc dec false true (fs_init true) ops')
+        snd (fs_run key enc dec false false true (fs_init true) ops')
         = [ObVacant key true; ObOccupied key [KOk key k] (Some (KErr key)); ObGet key (Some None)].
 Ltac ks_eval :=
   cbv [fs_run fs_step fs_entry fs_get fs_init files canary lookup create unlink gets then_remove fd_gets fd_get
@@ -269,6 +286,22 @@ Proof.
     ks_eval. rewrite Hde. ks_eval. rewrite Hskip, Hnil. ks_eval. reflexivity.
 Qed.
 
+(** Setting [dirty] before the write (instead of after a successful write and
+    sync) breaks the refinement: after a failed insert the id looks occupied. *)
+Definition keystore_dirty_first_refuted_stmt : Prop :=
+  forall (key : Type) (enc : key -> bytes) (dec : bytes -> option key) (p : bytes),
+    exists ops,
+      snd (fs_run key enc dec true true true (fs_init true) ops) <> snd (spec_run key (fun _ => None) ops)
+      /\ snd (fs_run key enc dec true true true (fs_init true) ops)
+         = [ObVacantFailed key; ObOccupied key [] None].
+Lemma keystore_dirty_first_refuted_proof : keystore_dirty_first_refuted_stmt.
+Proof.
+  intros key enc dec p.
+  exists [OEntry key 0 (VInsertFail key p) {| gets := 0; then_remove := false |};
+          OEntry key 0 (VDrop key) {| gets := 0; then_remove := false |}].
+  split; ks_eval; [discriminate | reflexivity].
+Qed.
+
 (** Non-vacuity: a concrete codec, and the model run on a sequence that uses
     every operation. *)
 Definition toy_enc (k : N) : bytes := [1; k].
@@ -276,12 +309,14 @@ Definition toy_dec (b : bytes) : option N := match b with [1; k] => Some k | _ =
 Example toy_codec_ok : forall k, toy_dec (toy_enc k) = Some k.
 Proof. reflexivity. Qed.
 Example keystore_nonvacuous :
-  snd (fs_run N toy_enc toy_dec rewinds true (fs_init true)
+  snd (fs_run N toy_enc toy_dec rewinds dirty_first true (fs_init true)
          [OEntry N 1 (VInsert N 7) {| gets := 0; then_remove := false |};
           OEntry N 1 (VDrop N) {| gets := 2; then_remove := true |};
           OEntry N 2 (VDrop N) {| gets := 0; then_remove := false |};
-          OGet N 2; OTryInsert N 2 5; OTryInsert N 2 6; OReopen N; OGet N 2; ORemove N 2; ORemove N 2])
+          OGet N 2; OTryInsert N 2 5; OTryInsert N 2 6; OReopen N; OGet N 2; ORemove N 2; ORemove N 2;
+          OEntry N 2 (VInsertFail N [1]) {| gets := 0; then_remove := false |}; OGet N 2; OTryInsertFail N 2 [1; 9; 9]; OReopen N; OGet N 2])
   = [ObVacant N true; ObOccupied N [KOk N 7; KOk N 7] (Some (KOk N 7)); ObVacant N false;
      ObGet N (Some None); ObTryInsert N true; ObTryInsert N false; ObReopen N; ObGet N (Some (Some 5));
-     ObRemove N (Some (Some 5)); ObRemove N (Some None)].
+     ObRemove N (Some (Some 5)); ObRemove N (Some None);
+     ObVacantFailed N; ObGet N (Some None); ObTryInsertErr N; ObReopen N; ObGet N (Some None)].
 Proof. vm_compute. reflexivity. Qed.
